@@ -205,7 +205,7 @@ Proof. destruct l; cbn; intros E Fc; try exact I; try discriminate. intros _ X. 
 Section PollLive.
 Variable reopen : bool.
 Variable pre : bytes.
-Notation pstep := (pstep reopen).
+Notation pstep := (pstep reopen true).
 Notation PInv := (PInv reopen pre).
 
 (* the descriptor is the file at the path; [hot]: and bytes of it are undelivered *)
@@ -255,6 +255,7 @@ Proof.
   - destruct reopen eqn:Ro.
     + exists LStat. eexists. split; [reflexivity|]. apply p_stat_reopen with (a := 0); auto.
     + exists LTau. eexists. split; [reflexivity|]. apply p_stat_present with (a := 0); auto.
+      unfold plain_sees, still_open. rewrite F. cbn. rewrite Pp, Nat.eqb_refl. reflexivity.
   - exists LTau. eexists. split; [reflexivity|]. eapply p_open with (a := 0); eauto.
 Qed.
 
@@ -275,6 +276,8 @@ Proof.
     + exfalso. specialize (Q2 Le). rewrite (qP _ _ _ I _ _ F) in Q2. unfold ino in Q2. rewrite firstn_all, content_cur in Q2.
       rewrite <- (app_nil_r (concat _)) in Q2 at 2. apply app_inv_head in Q2.
       apply (f_equal (@length _)) in Q2. rewrite firstn_length in Q2. cbn in Q2. lia.
+  - (* plain follow: the path still is the open file, the Stat branch cannot end the stream *)
+    exfalso. match goal with X : plain_sees _ _ _ = false |- _ => unfold plain_sees, still_open in X; rewrite F in X, Fc; congruence end.
 Qed.
 
 Lemma pdrained_at_end s off : PInv s -> pfd s = Some (ino (penv s), off) -> present (penv s) = true ->
